@@ -24,13 +24,11 @@ from symx.harness import Ob, FuncTrace, source_digest, solve_ladder, eval_terms
 from . import gr
 
 PID = 'C17'
-MODS = ['Conformally_flat', 'Non_diagonal', 'Harvey_Tsoubelis', 'Collins_Stewart', 'Schwarzschild_isotropic', 'EdS']
+MODS = ['Conformally_flat', 'Non_diagonal', 'Harvey_Tsoubelis', 'Collins_Stewart', 'Schwarzschild_isotropic', 'EdS', 'LCDM', 'Rosquist_Jantzen']
 FILES = [f'src/aurel/solutions/{m}.py' for m in MODS]
 OUT_OF_REACH = {
-    'Rosquist_Jantzen': 'irrational exponents and constants computed in floating point at import (t**a * t**b = t**(a+b) not available for float a, b)',
     'Szekeres': 'uses scipy hyp2f1',
     'ICPertFLRW': 'first-order perturbation, not an exact solution; built on a caller-supplied fd',
-    'LCDM': 'sinh**(2/3) of float products of module constants: identities hold to round-off only',
 }
 
 
@@ -72,6 +70,21 @@ def setup(modname):
         over['M'] = M
         x, y, z = sym('x'), sym('y'), sym('z')
         pre += [tm.lt(tm.ZERO, M.t), tm.lt((M * M).t, (4 * (x * x + y * y + z * z)).t)]     # outside the horizon r > M/2
+    if modname == 'Rosquist_Jantzen':
+        # the module's T_mn is the Einstein tensor of its metric for EVERY value of its constants s, q, k, m (measured:
+        # the relations the module computes between them from gamma are not needed), so they are free symbols here -
+        # the claim covers the shipped gamma = 1.22 and every other choice.  s and q must be symbols anyway so that
+        # every power of t in the module is t**(a + b s + c q) with integer a, b, c: a monomial in t, t**s, t**q.
+        k_, m_, s_, q_ = sym('k'), sym('m'), sym('s'), sym('q')
+        over.update(s=s_, q=q_, k=k_, m=m_)
+        pre += [tm.lt(tm.ZERO, k_.t), tm.lt(tm.ZERO, m_.t)]
+    if modname == 'LCDM':
+        # Omega_m and the EdS age are free (0 < Omega_m < 1, t_EdS > 0); the other constants as the module derives them
+        Om, tE = sym('Om'), sym('t_today')
+        H = 2 / (3 * tE)
+        over.update(Omega_m_today=Om, Omega_l_today=1 - Om, Hprop_today=H, t_today_EdS=tE, Lambda=3 * (1 - Om) * H * H,
+                    a_today=SymReal(tm.ONE))
+        pre += [tm.lt(tm.ZERO, Om.t), tm.lt(Om.t, tm.ONE), tm.lt(tm.ZERO, tE.t)]
     if modname == 'EdS':
         tt = sym('t_today')
         over.update(t_today=tt, Hprop_today=2 / (3 * tt), a_today=SymReal(tm.ONE), w=0, Omega_m_EdS=1)
@@ -119,16 +132,17 @@ def build_module(modname, tier):
                                           group=f'{modname}: K_ij == -(d_t gamma_ij)/(2 alpha)'))
                 # (2) Einstein's equations
                 kap = over.get('kappa', 8 * np.pi)
-                Lam = getattr(mod, 'Lambda', 0.0) if modname not in ('Non_diagonal',) else 0.0
+                Lam = over.get('Lambda', getattr(mod, 'Lambda', 0.0)) if modname not in ('Non_diagonal',) else 0.0
                 g0 = oracle.truncate(st.g, 0)
                 if hasattr(mod, 'Tdown4'):
                     Tm = gr.ungrid(mod.Tdown4(t, x, y, z))
                 elif hasattr(mod, 'rho'):
+                    press = getattr(mod, 'press', lambda *a_: 0)           # LCDM: dust (no press function)
                     try:
                         rho = mod.rho(t, x, y, z)
-                        prs = mod.press(t, x, y, z)
+                        prs = press(t, x, y, z)
                     except TypeError:
-                        rho, prs = mod.rho(t), mod.press(t)
+                        rho, prs = mod.rho(t), press(t)
                     rho = gr.ungrid(rho)[()] if isinstance(rho, np.ndarray) else rho
                     prs = gr.ungrid(prs)[()] if isinstance(prs, np.ndarray) else prs
                     a0 = T0(alpha_j)
@@ -152,10 +166,8 @@ def build_module(modname, tier):
                     ts, xs_, ys, zs = sp.symbols('t x y z', positive=False)
                     # the sympy form is evaluated with sympy symbols standing for the same constants
                     for k_, v_ in over.items():
-                        if isinstance(v_, SymReal) and v_.t.op == 'v':
-                            setattr(mod, k_, sp.Symbol(v_.t.val))
-                        elif isinstance(v_, SymReal) and v_.t.op == 'c':
-                            setattr(mod, k_, sp.Rational(v_.t.val.numerator, v_.t.val.denominator))
+                        if isinstance(v_, SymReal):
+                            setattr(mod, k_, term_to_sympy(v_.t))
                         elif isinstance(v_, F):
                             setattr(mod, k_, sp.Rational(v_.numerator, v_.denominator))
                     try:
@@ -193,6 +205,33 @@ def build_module(modname, tier):
     return [o for o in obs if o is not None], pre, len(bad)
 
 
+def term_to_sympy(root):
+    """constants of the harness (rational expressions in symbols) as sympy expressions over equally named symbols"""
+    vals = {}
+    for t in tm.reachable([root]):
+        if t.op == 'c':
+            v = sp.Rational(t.val.numerator, t.val.denominator)
+        elif t.op == 'v':
+            v = sp.Symbol(t.val)
+        elif t.op == 'sum':
+            c0, items = t.val
+            v = sp.Rational(c0.numerator, c0.denominator)
+            for a, (_, c) in zip(t.args, items):
+                v = v + sp.Rational(c.numerator, c.denominator) * vals[a.id]
+        elif t.op == 'prod':
+            v = sp.Integer(1)
+            for a, (_, e) in zip(t.args, t.val):
+                v = v * vals[a.id] ** e
+        elif t.op == 'recip':
+            v = 1 / vals[t.args[0].id]
+        elif t.op == 'sqrt':
+            v = sp.sqrt(vals[t.args[0].id])
+        else:
+            raise ValueError(f'constant with {t.op} node')
+        vals[t.id] = v
+    return vals[root.id]
+
+
 def sympy_to_term(e, amap):
     e = sp.sympify(e)
     if e in amap:
@@ -216,22 +255,27 @@ def sympy_to_term(e, amap):
             return tm.rpow(sympy_to_term(b, amap), F(int(p.p), int(p.q)))
         if p.is_Float:
             return tm.rpow(sympy_to_term(b, amap), tm.rationalise(float(p)))
+        return tm.exp(tm.mul(sympy_to_term(p, amap), tm.log(sympy_to_term(b, amap))))
     if isinstance(e, sp.sin):
         return tm.fn('sin', [sympy_to_term(e.args[0], amap)])
     if isinstance(e, sp.cos):
         return tm.fn('cos', [sympy_to_term(e.args[0], amap)])
+    if isinstance(e, sp.sinh):
+        ex = tm.exp(sympy_to_term(e.args[0], amap))
+        return tm.scale(tm.sub(ex, tm.recip(ex)), F(1, 2))
     if isinstance(e, sp.exp):
         return tm.exp(sympy_to_term(e.args[0], amap))
     if isinstance(e, sp.log):
         return tm.log(sympy_to_term(e.args[0], amap))
-    if e.is_Symbol and str(e) in ('fq', 'kappa', 'M', 's', 't_today'):
+    if e.is_Symbol and str(e) in ('fq', 'kappa', 'M', 's', 't_today', 'w', 'k', 'm', 'q', 'Om', 'H'):
         return tm.var(str(e))
     raise ValueError(f'unsupported {e}')
 
 
 def sampler_for(modname):
     def f(rng):
-        env = {n: F(rng.choice([3, 5, 7, 9, 11]), 4) for n in ('t', 'kappa', 'fq', 'M', 't_today')}
+        env = {n: F(rng.choice([3, 5, 7, 9, 11]), 4) for n in ('t', 'kappa', 'fq', 'M', 't_today', 'k', 'm')}
+        env.update(s=F(rng.choice([1, 2, 3]), 5), q=F(rng.choice([-1, 1, 2]), 7), Om=F(rng.choice([1, 2, 3]), 4))
         env.update({n: F(rng.choice([-7, -3, 2, 5, 9]), 4) for n in ('x', 'y', 'z')})
         if modname == 'Schwarzschild_isotropic':
             env['M'] = F(1, 2)
@@ -249,6 +293,14 @@ def run_module(args):
         import traceback
         return dict(module=modname, error=traceback.format_exc()[-600:], obs=[], stats=solver.STATS.as_dict())
     t_build = time.time() - t0
+    # vacuity twin (the preconditions are satisfiable) and sensitivity witness (a wrong reference is refuted)
+    vac = []
+    r_ = solver.check(pre, timeout_s=60, want_model=False)
+    vac.append(dict(name=f'{modname}: preconditions satisfiable', expect='sat', got=r_['verdict']))
+    for o in obs:
+        if o.name.endswith('Einstein[1,1]') or o.name.endswith('Kdown3[1,1]'):
+            r_ = solver.check(list(pre) + [tm.ne(o.impl, tm.add(o.oracle, tm.ONE))], timeout_s=60, want_model=False)
+            vac.append(dict(name=f'{o.name} against reference + 1', expect='sat', got=r_['verdict']))
     rungs = [dict(name='full', envs=[None], timeout=90 if tier == 'quick' else 600),
              dict(name='slice:t=3/2', envs=[{'t': F(3, 2)}], timeout=90 if tier == 'quick' else 600),
              dict(name='slice:two rational points (r = 13, r = 7), constants free', envs=[{'t': F(3, 2), 'y': F(3), 'z': F(4), 'x': F(12)}, {'t': F(5, 2), 'x': F(-2), 'y': F(6), 'z': F(3)}],
@@ -269,7 +321,7 @@ def run_module(args):
                 rec['values'] = None
             rec['model'] = {k: str(v) for k, v in r['model'].items() if v is not None}
         out.append(rec)
-    return dict(module=modname, obs=out, build_s=round(t_build, 1), untranslated=untranslated, stats=solver.STATS.as_dict(), error=None)
+    return dict(module=modname, obs=out, build_s=round(t_build, 1), untranslated=untranslated, stats=solver.STATS.as_dict(), error=None, vacuity=vac)
 
 
 def float_replay(modname, name, model):
@@ -307,12 +359,13 @@ def float_replay(modname, name, model):
             if hasattr(mod, 'Tdown4'):
                 rel.data['Tdown4'] = mod.Tdown4(t, X, Y, Z)
             else:
+                press = getattr(mod, 'press', lambda *a_: 0.0)
                 try:
                     rel.data['rho0'] = mod.rho(t, X, Y, Z)
-                    rel.data['press'] = mod.press(t, X, Y, Z)
+                    rel.data['press'] = press(t, X, Y, Z)
                 except TypeError:
                     rel.data['rho0'] = mod.rho(t) * np.ones(X.shape)
-                    rel.data['press'] = mod.press(t) * np.ones(X.shape)
+                    rel.data['press'] = press(t) * np.ones(X.shape)
             rel.freeze_data()
             c = N // 2
             H = float(rel['Hamiltonian'][c, c, c])
@@ -356,11 +409,13 @@ def sympy_einstein_replay(mod, name, pt):
 def main(report, tier, seed, workers, calibrate=False):
     import multiprocessing as mp
     report.bounds = dict(modules=MODS, jet_order=2, coordinates='t > 0 and (x, y, z) free reals (Schwarzschild: outside the horizon)',
-                         constants='kappa, fq, M, t_today symbolic (any positive value); Collins_Stewart gamma = 4/3 with s^2 = 4/3',
+                         constants='kappa, fq, M, t_today symbolic (any positive value); Collins_Stewart gamma = 4/3 with s^2 = 4/3; LCDM: 0 < Omega_m < 1 and '
+                         't_EdS > 0 free, the other constants as the module derives them; Rosquist_Jantzen: s, q, k > 0, m > 0 free (covers the shipped '
+                         'gamma = 1.22 and every other choice; powers of t as monomials in the atoms t, t**s, t**q)',
                          outside=[f'{k}: {v}' for k, v in OUT_OF_REACH.items()] + ['null_ray_exp_out', 'float round-off'])
     report.assumptions += ['module constants replaced by symbols related as the module relates them (exact identities, no '
                            'tolerance mode needed)', 'sin/cos/exp/log/roots are atoms with their differential rules; '
-                           'sin^2+cos^2 = 1, exp > 0, root^q = x', 'perfect-fluid modules: u = n (comoving), T = rho n n + p h']
+                           'sin^2+cos^2 = 1, exp > 0, exp(u) >= 1 + u, u < 0 -> exp(u) < 1, exp(a + b) = exp(a) exp(b) on integer combinations, root^q = x; sinh/cosh through exp', 'perfect-fluid modules: u = n (comoving), T = rho n n + p h']
     report.stubs += ['aurel.solutions.<module>.np and aurel.maths.np -> symx.npproxy', 'module-level constants -> symbols']
     with FuncTrace() as ft:
         build_module('Conformally_flat', tier)
@@ -377,6 +432,12 @@ def main(report, tier, seed, workers, calibrate=False):
             report.harness_errors.append(f"{res['module']}: {res['error'][-300:]}")
             continue
         report.extra.setdefault('build_seconds', {})[res['module']] = res['build_s']
+        for v_ in res.get('vacuity', []):
+            report.vacuity.append(v_)
+            if v_['got'] == 'unsat':
+                report.harness_errors.append(f"vacuity/sensitivity witness {v_['name']} came back unsat")
+            elif v_['got'] != 'sat':
+                report.notes.append(f"witness {v_['name']}: {v_['got']} (not settled)")
         if res['untranslated']:
             report.notes.append(f"{res['module']}: {res['untranslated']} symbolic metric entries not translatable")
         for o in res['obs']:
